@@ -1,4 +1,5 @@
 """C14 Safety interlocks refuse destructive syncs and change nothing."""
+import re
 import os, signal, subprocess, time, random, traceback, multiprocessing
 import vlib, arr, arrayprop, recorder, scen
 
@@ -74,7 +75,10 @@ def _history(seed, confkw):
                 if trig == "blocksize":
                     s = s.replace("blocksize 1", "blocksize 2")
                 if trig == "hashsize":
-                    s = s.replace("blocksize 1", "blocksize 1\nhashsize 8")
+                    if "hashsize" in s:
+                        s = re.sub(r"hashsize \d+", "hashsize 16", s)
+                    else:
+                        s = s.replace("blocksize 1", "blocksize 1\nhashsize 8")
                 open(p, "w").write(s)
                 pending()
                 for cmd in ("sync", "sync", "check", "status")[:rng.randint(1, 4)]:
@@ -142,7 +146,10 @@ def run(tier):
     # operators EmptyInterlock/ZeroInterlock/small parity are exercised through the traces below)
     s0 = vlib.seed() * 1000
     n = 10 if quick else 80
-    jobs = [(s0 + i, dict(nd=[2, 3, 2, 4][i % 4], np=[2, 1, 3, 2][i % 4], copies=[2, 1, 3, 2][i % 4])) for i in range(n)]
+    # every fifth array has a reduced hash size, every seventh a parity split over several files (content format 3)
+    jobs = [(s0 + i, dict(nd=[2, 3, 2, 4][i % 4], np=[2, 1, 3, 2][i % 4], copies=[2, 1, 3, 2][i % 4],
+                          **({"hash_size": 8} if i % 5 == 4 else {"splits": [2] + [1] * ([2, 1, 3, 2][i % 4] - 1)} if i % 7 == 6 else {})))
+            for i in range(n)]
     with multiprocessing.Pool(8) as pool:
         scs = pool.map(_job, jobs, chunksize=1)
     for s in scs:
